@@ -17,6 +17,9 @@ theorem tie_h_lock_sock_Request : Extracted.Lock.h_lock_sock_Request = Canon.Loc
 theorem tie_h_lock_client_GetCurrentStatus : Extracted.Lock.h_lock_client_GetCurrentStatus = Canon.Lock.h_lock_client_GetCurrentStatus := by decide +kernel
 theorem tie_h_lock_dag_SockAddr : Extracted.Lock.h_lock_dag_SockAddr = Canon.Lock.h_lock_dag_SockAddr := by decide +kernel
 theorem tie_h_lock_agent_dryRun : Extracted.Lock.h_lock_agent_dryRun = Canon.Lock.h_lock_agent_dryRun := by decide +kernel
+theorem tie_h_rest_lock_agent_agent_go : Extracted.Lock.h_rest_lock_agent_agent_go = Canon.Lock.h_rest_lock_agent_agent_go := by decide +kernel
+theorem tie_h_rest_lock_sock_server_go : Extracted.Lock.h_rest_lock_sock_server_go = Canon.Lock.h_rest_lock_sock_server_go := by decide +kernel
+theorem tie_h_rest_lock_sock_client_go : Extracted.Lock.h_rest_lock_sock_client_go = Canon.Lock.h_rest_lock_sock_client_go := by decide +kernel
 
 #print axioms tie_h_lock_agent_Run
 #print axioms tie_h_lock_agent_setup
@@ -32,5 +35,8 @@ theorem tie_h_lock_agent_dryRun : Extracted.Lock.h_lock_agent_dryRun = Canon.Loc
 #print axioms tie_h_lock_client_GetCurrentStatus
 #print axioms tie_h_lock_dag_SockAddr
 #print axioms tie_h_lock_agent_dryRun
+#print axioms tie_h_rest_lock_agent_agent_go
+#print axioms tie_h_rest_lock_sock_server_go
+#print axioms tie_h_rest_lock_sock_client_go
 
 end BdModel.Tie.Lock
